@@ -1174,6 +1174,7 @@ static void app_wait_reinit(void)
 
 static void gen_alt_servers(int *idx, int *n, vh_rng_t *rng);
 
+static int app_setsrv_in_cb_profile; /* set by the sub-workload whose completion callbacks replace the server list */
 /* replace the server list (scripted, or from inside a completion callback) */
 static void app_set_servers_now(int arg, int quiescent)
 {
@@ -1205,7 +1206,10 @@ static void app_set_servers_now(int arg, int quiescent)
           vh_trace("set_servers '%s' -> %d; list now '%s'", csv, x_rc, now_csv ? now_csv : "(null)");
           ares_free_string(now_csv);
         }
-        if (x_rc == ARES_SUCCESS && n > 0 && quiescent && (app_cfg.flags & ARES_FLAG_PRIMARY)) {
+        if (x_rc == ARES_SUCCESS && n > 0 && quiescent && (app_cfg.flags & ARES_FLAG_PRIMARY) && !app_setsrv_in_cb_profile) {
+          /* (not in the sub-workload whose completion callbacks replace the server list themselves: a query ended while
+           * this very call trims the list has its callback install another list underneath it - the open finding of
+           * that sub-workload - and "the first of the list just given" has no meaning there) */
           /* ARES_FLAG_PRIMARY: "only query the first server in the list" - the first of the list just given, whatever
            * the servers' failure counts */
           char  want1[256];
